@@ -39,6 +39,9 @@ type Anchors struct {
 	ScaleUp, ScaleDown, CloudStep, UntaintStep          *ssa.Function
 	TaintLoop, UntaintLoop, TaintClamp                  *ssa.Function
 	TryDelete, GraceReaper, ForceReaper                 *ssa.Function
+	CloudStepChain                                      []*ssa.Function // CloudStep (what ScaleUp calls) … the function holding IncreaseSize
+	TryDeleteInner                                      *ssa.Function   // the function holding the two delete calls (TryDelete itself, or a private helper under it)
+	TryDeleteChain                                      []*ssa.Function // TryDelete … TryDeleteInner
 	Lock, Unlock, Locked                                *ssa.Function
 	CalcDelta, CalcPercent, ClampHelper                 *ssa.Function
 	Validate, Unmarshal, SetupNodeGroups, NewController *ssa.Function
@@ -680,6 +683,30 @@ func resolveAnchors(p *Prog) *Anchors {
 		}
 	}
 	if a.TryDelete != nil {
+		// the delete step is what the reapers call: a private helper around the two delete calls with
+		// a single caller that takes no decision on the taint time is part of that step
+		a.TryDeleteInner = a.TryDelete
+		a.TryDeleteChain = []*ssa.Function{a.TryDelete}
+		for steps := 0; steps < 3; steps++ {
+			cs := p.callers[a.TryDelete]
+			if len(cs) != 1 || cs[0] == a.Scan || !p.inRepo(cs[0]) || len(callsTo(cs[0], a.TryDelete)) != 1 {
+				break
+			}
+			if a.GetTime != nil && p.reachCut([]*ssa.Function{cs[0]}, nil)[a.GetTime] {
+				break
+			}
+			hasList := false
+			for _, prm := range cs[0].Params {
+				if _, ok := prm.Type().(*types.Slice); ok {
+					hasList = true
+				}
+			}
+			if !hasList {
+				break
+			}
+			a.TryDelete = cs[0]
+			a.TryDeleteChain = append([]*ssa.Function{cs[0]}, a.TryDeleteChain...)
+		}
 		for _, c := range p.callers[a.TryDelete] {
 			// the grace reaper consults the taint time; the force reaper does not
 			// directly or through a helper that takes the decision
@@ -702,6 +729,20 @@ func resolveAnchors(p *Prog) *Anchors {
 		}
 	}
 	if a.CloudStep != nil {
+		// the cloud step is what ScaleUp calls: a private helper around IncreaseSize with a single
+		// caller is part of that step
+		a.CloudStepChain = []*ssa.Function{a.CloudStep}
+		for steps := 0; steps < 3 && a.ScaleUp != nil && a.CloudStep != a.ScaleUp; steps++ {
+			cs := p.callers[a.CloudStep]
+			if len(cs) != 1 || cs[0] == a.ScaleUp || cs[0] == a.Scan || !p.inRepo(cs[0]) || len(callsTo(cs[0], a.CloudStep)) != 1 {
+				break
+			}
+			if !p.reachCut([]*ssa.Function{a.ScaleUp}, nil)[cs[0]] {
+				break
+			}
+			a.CloudStep = cs[0]
+			a.CloudStepChain = append([]*ssa.Function{cs[0]}, a.CloudStepChain...)
+		}
 		for _, g := range p.callees[a.CloudStep] {
 			if g.Signature.Recv() != nil && a.isPtrTo(g.Signature.Recv().Type(), a.TController) && g != a.DryMode && isInteger(resultType(g, 0)) {
 				a.ClampHelper = a.uniq(a.ClampHelper, g, "clamp helper")
@@ -718,7 +759,12 @@ func resolveAnchors(p *Prog) *Anchors {
 		case "W-ASG-ATT":
 			a.AwsAttach = a.uniq(a.AwsAttach, a.liftThinWrapper(s), "attach step")
 		case "W-EC2-TERM":
-			a.AwsTerminateOrphans = a.uniq(a.AwsTerminateOrphans, a.liftThinWrapper(s), "orphan terminator")
+			ot := a.liftThinWrapper(s)
+			// the body of a range-over-func loop belongs to the function the loop is written in
+			for ot != nil && ot.Synthetic == "range-over-func yield" && ot.Parent() != nil {
+				ot = ot.Parent()
+			}
+			a.AwsTerminateOrphans = a.uniq(a.AwsTerminateOrphans, ot, "orphan terminator")
 		}
 	}
 	if sp := p.SSAPkg[pkgAWS]; sp != nil {
